@@ -408,6 +408,13 @@ fn gen_ops(r: &mut Rng, w: &[u32; NK], n: usize, ops: &mut Vec<Op>, depth: &mut 
                     align: a,
                     seed,
                 },
+                None if r.chance(1, 40) => Op::Layout {
+                    // sizes no machine can satisfy: must end in Err / the out-of-memory panic
+                    try_,
+                    size: *r.pick(&[1usize << 31, 1 << 40, isize::MAX as usize / 2, isize::MAX as usize - 4095, (isize::MAX as usize) - 63]),
+                    align: 1 << r.below(7),
+                    seed,
+                },
                 None => Op::Layout {
                     try_,
                     size: sz.draw(r),
